@@ -11,7 +11,7 @@ class BaseGrid(ABC):
     def __init__(self, grid, gridsize, origin, **kwargs):
         """Base grid class."""
         super().__init__(**kwargs)
-        self._grid = np.asarray(grid, dtype=np.float64)
+        self._grid = np.require(grid, dtype=np.float64, requirements="W")
         self._gridsize = tuple(float(x) for x in gridsize)
         self._origin = np.asarray(origin, dtype=np.float64)
 
